@@ -8,6 +8,7 @@ mod c09;
 mod c11;
 mod c12;
 mod c14;
+mod c15;
 mod c17;
 pub mod xsched;
 pub mod world;
